@@ -65,15 +65,17 @@ C(deco, form, keyfn, maxsize, body, alpha, pairs, depth, ttl) ==
 D(q, t) == IF Deep = 1 THEN t ELSE q
 AllConfigs ==
   CASE Group = "spell" ->      \* every spelling, shallow
-         {C("lru", f, k, 3, "plain", "full", 0, D(2, 3), 0) : f \in {"fn", "meth"}, k \in {0, 1}}
+         {C("lru", f, 0, 3, "plain", "full", 0, D(2, 3), 0) : f \in {"fn", "meth"}}
+         \cup {C("lru", f, 1, 3, "plain", "full", 0, 2, 0) : f \in {"fn", "meth"}}
     [] Group = "lru" ->        \* few keys, deep: eviction order, recency refresh, every maxsize
-         {C("lru", f, 0, m, "plain", "small", 0, D(5, 6), 0) : f \in {"fn", "meth"}, m \in 1..3}
+         {C("lru", "fn", 0, m, "plain", "small", 0, D(5, 6), 0) : m \in 1..3}
+         \cup {C("lru", "meth", 0, m, "plain", "small", 0, 5, 0) : m \in 1..3}
          \cup {C("lru", "fn", 1, 2, "plain", "tiny", 0, D(4, 6), 0)}
     [] Group = "inst" ->       \* acached_per_instance: two instances, one is dropped and re-created
-         {C("inst", "meth", 0, 99, "plain", "full", 0, 2, 0), C("inst", "meth", 0, 99, "plain", "tiny", 0, D(4, 5), 0)}
-         \cup (IF Deep = 1 THEN {C("inst", "meth", 0, 99, "plain", "mid", 0, 3, 0)} ELSE {})
+         {C("inst", "meth", 0, 99, "plain", "full", 0, 2, 0), C("inst", "meth", 0, 99, "plain", "tiny", 0, 4, 0)}
+         \cup (IF Deep = 1 THEN {C("inst", "meth", 0, 99, "plain", "mid", 0, 3, 0), C("inst", "meth", 0, 99, "plain", "duo", 0, 5, 0)} ELSE {})
     [] Group = "lazy" ->       \* alazy_constant: ttl 0 (never expires) and ttl 4 (Tick = 3, so elapsed is never = ttl)
-         {C("lazy", "fn", 0, 1, b, "none", 0, D(6, 8), t) : b \in {"plain", "block"}, t \in {0, 4}}
+         {C("lazy", "fn", 0, 1, b, "none", 0, D(6, 7), t) : b \in {"plain", "block"}, t \in {0, 4}}
     [] Group = "overlap" ->    \* batch-blocking bodies, two calls yielded together
          {C("lru", "fn", k, 3, "block", "tiny", 1, D(2, 3), 0) : k \in {0, 1}}
          \cup {C("lru", "meth", 0, 3, "block", "duo", 1, 2, 0), C("inst", "meth", 0, 99, "block", "duo", 1, 2, 0)}
